@@ -166,6 +166,9 @@ pub enum Policy {
   Pct(u32),
   /// replay: the recorded choice at every decision point (>= 2 runnable threads)
   Fixed(Vec<u8>),
+  /// no baton: all threads are released at once and the operating system schedules them
+  /// (stress sub-check; not deterministic, its findings are confirmed by repetition)
+  Os,
 }
 
 impl Policy {
@@ -176,6 +179,7 @@ impl Policy {
       Policy::RandomWalk => "rw".to_string(),
       Policy::Pct(d) => format!("pct{}", d),
       Policy::Fixed(_) => "fixed".to_string(),
+      Policy::Os => "os".to_string(),
     }
   }
 }
@@ -271,6 +275,13 @@ static SIM: OnceLock<Sim> = OnceLock::new();
 /// happening (a lock outside the seam is held across yield points) multi-thread runs start free
 static FREE_RUN_EVENTS: std::sync::atomic::AtomicU64 = std::sync::atomic::AtomicU64::new(0);
 
+/// true while a run that is free from its first instruction (Policy::Os) is executing: the
+/// hooks then return at once, without touching the scheduler's own mutex, so that simulated
+/// threads really run in parallel
+static FREE_FAST: AtomicBool = AtomicBool::new(false);
+/// operations started while FREE_FAST (progress indicator for the watchdog)
+static OS_PROGRESS: std::sync::atomic::AtomicU64 = std::sync::atomic::AtomicU64::new(0);
+
 pub fn sim() -> &'static Sim {
   SIM.get_or_init(|| Sim { st: Mutex::new(None), cv: Condvar::new() })
 }
@@ -280,7 +291,7 @@ struct SimHooks;
 impl tyme4rs::tyme::verif::Hooks for SimHooks {
   fn before_lock(&self, addr: usize) {
     let me = current_tid();
-    if me != usize::MAX {
+    if me != usize::MAX && !FREE_FAST.load(Ordering::Relaxed) {
       let _g = SchedGuard::enter();
       sim().before_lock(me, addr, false);
     }
@@ -288,7 +299,7 @@ impl tyme4rs::tyme::verif::Hooks for SimHooks {
 
   fn before_try_lock(&self, addr: usize) {
     let me = current_tid();
-    if me != usize::MAX {
+    if me != usize::MAX && !FREE_FAST.load(Ordering::Relaxed) {
       let _g = SchedGuard::enter();
       sim().before_lock(me, addr, true);
     }
@@ -296,7 +307,7 @@ impl tyme4rs::tyme::verif::Hooks for SimHooks {
 
   fn acquired(&self, addr: usize, poisoned: bool) {
     let me = current_tid();
-    if me != usize::MAX {
+    if me != usize::MAX && !FREE_FAST.load(Ordering::Relaxed) {
       let _g = SchedGuard::enter();
       sim().acquired(me, addr, poisoned);
     }
@@ -304,7 +315,7 @@ impl tyme4rs::tyme::verif::Hooks for SimHooks {
 
   fn after_unlock(&self, addr: usize, panicking: bool) {
     let me = current_tid();
-    if me != usize::MAX {
+    if me != usize::MAX && !FREE_FAST.load(Ordering::Relaxed) {
       let _g = SchedGuard::enter();
       sim().after_unlock(me, addr, panicking);
     }
@@ -448,7 +459,7 @@ impl St {
           c
         }
       }
-      Policy::RandomWalk => cands[self.rng.below(cands.len() as u64) as usize],
+      Policy::RandomWalk | Policy::Os => cands[self.rng.below(cands.len() as u64) as usize],
       Policy::Pct(_) => {
         let step = self.step;
         let due = self.pct_change.iter().filter(|c| **c <= step).count();
@@ -557,6 +568,10 @@ impl Sim {
 
   /// Called by the thread body before each operation. Returns false when the run is aborted.
   pub fn op_start(&self, me: usize, op: u32) -> bool {
+    if FREE_FAST.load(Ordering::Relaxed) {
+      OS_PROGRESS.fetch_add(1, Ordering::Relaxed);
+      return true;
+    }
     let _g = SchedGuard::enter();
     {
       let mut g = self.lock();
@@ -742,6 +757,7 @@ impl Sim {
         pct_change.push(rng.below(est_steps.max(8)));
       }
     }
+    let os_policy = matches!(policy, Policy::Os);
     let st = St {
       threads,
       current: usize::MAX,
@@ -759,12 +775,13 @@ impl Sim {
       keep_log,
       log: Vec::new(),
       abort: None,
-      free_run: nthreads > 1 && FREE_RUN_EVENTS.load(Ordering::SeqCst) >= 12,
+      free_run: os_policy || (nthreads > 1 && FREE_RUN_EVENTS.load(Ordering::SeqCst) >= 12),
       budget,
       finished: 0,
       stats: RunStats::default(),
       state_samples: Vec::new(),
     };
+    FREE_FAST.store(os_policy, Ordering::SeqCst);
     let gos: Vec<Arc<AtomicBool>> = st.threads.iter().map(|t| t.go.clone()).collect();
     *self.lock() = Some(st);
 
@@ -832,7 +849,7 @@ impl Sim {
       let mut last_step = u64::MAX;
       let mut last_change = std::time::Instant::now();
       loop {
-        let (done, step) = g.as_ref().map(|s| (s.finished == s.threads.len(), s.step)).unwrap_or((true, 0));
+        let (done, step) = g.as_ref().map(|s| (s.finished == s.threads.len(), s.step.wrapping_add(OS_PROGRESS.load(Ordering::Relaxed)))).unwrap_or((true, 0));
         if done {
           break;
         }
@@ -862,6 +879,7 @@ impl Sim {
       }
     }
     if watchdog_fired {
+      FREE_FAST.store(false, Ordering::SeqCst);
       let g = self.lock();
       let st = g.as_ref().unwrap();
       let cur = st.current;
@@ -871,6 +889,7 @@ impl Sim {
     for h in handles {
       let _ = h.join();
     }
+    FREE_FAST.store(false, Ordering::SeqCst);
     let st = self.lock().take().unwrap();
     RunResult { trace: st.trace, trace_owner: st.trace_owner, log_hash: st.log_hash, log: st.log, abort: st.abort, diverged: st.diverged, stats: st.stats, watchdog: false, sched_states: st.state_samples, lock_addrs: st.lock_addr, free_run: st.free_run }
   }
